@@ -11,7 +11,7 @@
 (*   anything else            =>  rejected with a non-empty error code;    *)
 (*   a panic is neither.                                                   *)
 (***************************************************************************)
-EXTENDS ExprGrammar, Json
+EXTENDS ExprGrammar, Json, Held
 VARIABLE l
 Trace == ndJsonDeserialize("trace.ndjson")
 
@@ -28,7 +28,7 @@ Init == l = 1
 Next ==
   /\ l <= Len(Trace)
   /\ l' = l + 1
-  /\ LET f == Fails(Trace[l]) IN f = "" \/ PrintT("VERIF-FAIL " \o ToString(l) \o " " \o f)
+  /\ LET f == Fails(Trace[l]) IN Report(l, f, Trace[l])
 Spec == Init /\ [][Next]_l
 Accepted == TLCGet("stats").diameter - 1 = Len(Trace)
 =============================================================================
